@@ -379,13 +379,39 @@ func (x *Exec) call(fr *Frame, st *State, site ssa.CallInstruction, callee *ssa.
 	if callee != nil && callee.Blocks != nil && callee.Pkg == x.P.Pkg && x.C.Inline(callee) {
 		return x.inline(fr, st, site, callee, fnTerm, args)
 	}
+	x.havocArgs(st, fr, site, callee, args)
+	return []CallOut{{St: st, Val: x.opaqueResult(fr, site, callee, fnTerm, args)}}
+}
+
+// havocArgs invalidates what a call that is not simulated may write through
+// its pointer arguments, according to the callee's field-sensitive write set.
+func (x *Exec) havocArgs(st *State, fr *Frame, site ssa.CallInstruction, callee *ssa.Function, args []*Term) {
 	siteT := mk("site", fr.ctx+"/"+siteID(fr, site), nil, x.curMark())
-	for _, a := range args {
-		if a.Op == "alloc" || a.Op == "field" || a.Op == "index" {
+	ws := getWriteSets(x.P)
+	for ai, a := range args {
+		if !(a.Op == "alloc" || a.Op == "field" || a.Op == "index" || ((a.Op == "param" || a.Op == "free") && isPointerTerm(a))) {
+			continue
+		}
+		fields := ws.writtenFields(callee, site.Common(), ai)
+		if fields["*"] {
 			x.havoc(st, a, siteT)
+			continue
+		}
+		for f := range fields {
+			x.havoc(st, mk("field", f, nil, a), siteT)
 		}
 	}
-	return []CallOut{{St: st, Val: x.opaqueResult(fr, site, callee, fnTerm, args)}}
+}
+
+func isPointerTerm(t *Term) bool {
+	if t.Typ == nil {
+		return false
+	}
+	switch t.Typ.Underlying().(type) {
+	case *types.Pointer, *types.Interface:
+		return true
+	}
+	return false
 }
 
 func (x *Exec) inline(fr *Frame, st *State, site ssa.CallInstruction, callee *ssa.Function, fnTerm *Term, args []*Term) []CallOut {
